@@ -17,9 +17,11 @@ R3 acyclic by construction: `add_provenance` is called only from `BaseStep._pers
 R4 `get_entity_ids` maps entities to `persistent_id` and drops only those without one; every concrete
    `Database.add_provenance` inserts one `(dependee=input, depender=token)` row per input (column order of the SQL text).
 R5 (added) inputs are recorded: `input_token_ids` of every `_persist_token` call in a Step is `get_entity_ids(<non-empty>)`,
-   or the combinator's collected `input_ids`, or `[]` only on the branch where the step has no input ports (the branch test
-   is recognised by what it evaluates -- `self.input_ports`, `get_input_ports()`, a Step method returning a selection of
-   them -- not by the name of the local it is bound to).
+   or the combinator's collected `input_ids`, or `[]` only where the branch fact "the step has no input ports" holds at the
+   call (sfverif.facts: a dominating test whose outcome on every path to the call implies it, whatever the spelling --
+   `if P: .. else: HERE`, `if not P: HERE else: ..`, a guard clause, `len(P) == 0`, `empty = not P; if empty:`).  P is
+   recognised by what it evaluates -- `self.input_ports`, `get_input_ports()`, a Step method returning a selection of
+   them -- not by the name of the local it is bound to; the polarity of a `not` is tracked through locals.
 R6 (added) the consumed tag group is what is recorded: in every Step method that groups a received batch by tag
    (`_group_by_tag(<batch>, <map>)`) and binds a completed group (`<g> = <map>.pop(<tag>)`), nothing in the region dominated
    by the pop that feeds provenance or the step's own processing (the `input_token_ids` of a `_persist_token`, the arguments
@@ -45,6 +47,7 @@ import ast
 import re
 
 from ..dataflow import reaching_defs
+from ..facts import facts_at
 from ..model import parent, unparse
 from ..selftest import V
 from ._util_C import (
@@ -57,7 +60,6 @@ from ._util_C import (
     kwarg,
     leads_only_to_raise,
     must_pass,
-    only_via,
     origins,
     resolves_to,
     strip_await,
@@ -526,6 +528,56 @@ def _is_ports_value(p, f, e, depth=2, _seen=None) -> bool:
     return False
 
 
+def _ports_polarity(p, f, e, depth=4):
+    """+1 when `e` is truthy exactly when the step has input ports (`_is_ports_value`), -1 when it is the negation
+    (`not <ports>`, or a local bound to that: `empty = not ports`), None otherwise.  Walrus targets and local
+    aliases are followed through def-use with the polarity they carry."""
+    neg = False
+    e = strip_await(e)
+    while isinstance(e, ast.NamedExpr) or (isinstance(e, ast.UnaryOp) and isinstance(e.op, ast.Not)):
+        if isinstance(e, ast.UnaryOp):
+            neg = not neg
+        e = strip_await(e.value if isinstance(e, ast.NamedExpr) else e.operand)
+    pol = None
+    if is_name(e) and depth:
+        ds = defs_of(f, e.id)
+        if ds and all(d.kind in ("assign", "walrus") and d.index is None and d.value is not None for d in ds):
+            pols = {_ports_polarity(p, f, d.value, depth - 1) for d in ds}
+            pol = pols.pop() if len(pols) == 1 else None
+    elif not isinstance(e, (ast.UnaryOp, ast.BoolOp, ast.Compare)) and _is_ports_value(p, f, e):
+        pol = 1
+    if pol is None:
+        return None
+    return -pol if neg else pol
+
+
+def _no_ports_fact(p, f, atom, truth) -> bool:
+    """The branch fact `atom is truth` says that the step has no input ports: `<ports>` is false, `not <ports>` (through a
+    local) is true, `len(<ports>)` is false, `len(<ports>) == 0` / `< 1` / `<= 0` is true, `len(<ports>) > 0` / `>= 1` is
+    false (`!=` and a leading `not` are folded into the truth value by facts.atoms)."""
+    def is_len(e):
+        return isinstance(e, ast.Call) and isinstance(e.func, ast.Name) and e.func.id == "len" and len(e.args) == 1 \
+            and not e.keywords and _ports_polarity(p, f, e.args[0]) == 1
+
+    if isinstance(atom, ast.Compare):
+        if len(atom.ops) != 1 or not is_len(atom.left):
+            return False
+        op, k = atom.ops[0], const(atom.comparators[0])
+        if type(k) is not int:
+            return False
+        if (isinstance(op, ast.Eq) and k == 0) or (isinstance(op, ast.Lt) and k == 1) or (isinstance(op, ast.LtE) and k == 0):
+            return truth is True
+        if (isinstance(op, ast.Gt) and k == 0) or (isinstance(op, ast.GtE) and k == 1):
+            return truth is False
+        return False
+    if is_len(atom):
+        return truth is False
+    if any(isinstance(x, ast.Call) and isinstance(x.func, ast.Name) and x.func.id == "len" for x in ast.walk(atom)):
+        return False
+    pol = _ports_polarity(p, f, atom)
+    return pol is not None and (pol == 1) == (truth is False)
+
+
 def r5(ctx):
     p = ctx.prog
     for f, call in _persist_sites(p, _step_classes(p)):
@@ -551,15 +603,11 @@ def r5(ctx):
         ok = bool(kinds) and all(k in ("ids", "combinator") for k in kinds)
         msg = f"`input_token_ids={unparse(ids)[:80]}` is not derived from the consumed inputs"
         if kinds and all(k == "empty" for k in kinds):
-            # allowed only where the step has no input ports
+            # allowed only where the step has no input ports: a branch fact "<the ports> is empty" holds at the call
+            # (facts are independent of the spelling of the test: `if P: .. else: HERE`, `if not P: HERE`, guard clauses)
             g = g or f.cfg
             cid = g.node_containing(call)
-            tests = [
-                t for t in g.nodes.values()
-                if t.kind == "test" and _is_ports_value(p, f, t.ast)
-                and not any(isinstance(x, ast.Call) and isinstance(x.func, ast.Name) and x.func.id == "len" for x in ast.walk(t.ast))
-            ]
-            ok = bool(cid) and any(all(only_via(g, t.id, "f", i) for i in cid) for t in tests)
+            ok = bool(cid) and all(any(_no_ports_fact(p, f, a, v) for a, v in facts_at(g, i)) for i in cid)
             msg = "`input_token_ids=[]` on a path where the step consumed inputs: the emitted token has no provenance"
         ctx.ob("R5", f"{where}: the consumed inputs are recorded as provenance", ok, func=f, node=call, instance=inst, message=msg)
 
@@ -936,6 +984,60 @@ _TR_GROUP = (
     "                            for port_name, token in (await self.transform(inputs)).items():\n"
 )
 
+# `if A: X else: Y` of DeployStep.run / Transformer.run (normalised text) for the swapped-branches variants
+_DEPLOY_PUT = (
+    "self.get_output_port().put(await self._persist_token(token=Token(value=self.deployment_config.name, recoverable=True), "
+    "port=self.get_output_port(), input_token_ids={}))\n"
+)
+_DEPLOY_THEN = (
+    "            inputs_map: dict[str, dict[str, Token]] = {}\n"
+    "            while True:\n"
+    "                inputs = await self._get_inputs(self.get_input_ports())\n"
+    "                if check_termination(inputs.values()):\n"
+    "                    status = _reduce_statuses([t.value for t in inputs.values()])\n"
+    "                    break\n"
+    "                _group_by_tag(inputs, inputs_map)\n"
+    "                for tag in list(inputs_map.keys()):\n"
+    "                    if len(inputs_map[tag]) == len(self.input_ports):\n"
+    "                        inputs_map.pop(tag)\n"
+    "                        await self.workflow.context.deployment_manager.deploy(self.deployment_config)\n"
+    "                        " + _DEPLOY_PUT.format("get_entity_ids(inputs.values())")
+)
+_DEPLOY_ELSE = (
+    "            await self.workflow.context.deployment_manager.deploy(self.deployment_config)\n"
+    "            " + _DEPLOY_PUT.format("[]") +
+    "            status = Status.COMPLETED\n"
+)
+_TR_PUT = "self.get_output_port(port_name).put(await self._persist_token(token={}, port=self.get_output_port(port_name), input_token_ids={}))\n"
+_TR_THEN = (
+    "            inputs_map: dict[str, dict[str, Token]] = {}\n"
+    "            while True:\n"
+    "                inputs = await self._get_inputs(input_ports)\n"
+    "                if check_termination(inputs.values()):\n"
+    "                    status = _reduce_statuses([t.value for t in inputs.values()])\n"
+    "                    break\n"
+    "                _group_by_tag(inputs, inputs_map)\n"
+    "                for tag in list(inputs_map.keys()):\n"
+    "                    if len(inputs_map[tag]) == len(input_ports):\n"
+    "                        inputs = inputs_map.pop(tag)\n"
+    "                        if check_iteration_termination(inputs.values()):\n"
+    "                            for port_name, token in inputs.items():\n"
+    "                                " + _TR_PUT.format("token.update(token.value)", "get_entity_ids(inputs.values())") +
+    "                        else:\n"
+    "                            for port_name, token in (await self.transform(inputs)).items():\n"
+    "                                if not isinstance(token, MutableSequence):\n"
+    "                                    token = [token]\n"
+    "                                for t in token:\n"
+    "                                    " + _TR_PUT.format("t", "get_entity_ids(inputs.values())")
+)
+_TR_ELSE = (
+    "            for port_name, token in (await self.transform({})).items():\n"
+    "                " + _TR_PUT.format("token", "[]") +
+    "            status = Status.COMPLETED\n"
+)
+_TR_IF = "        if (input_ports := self._filter_input_ports()):\n"
+_TR_IFNOT = "        if not (input_ports := self._filter_input_ports()):\n"
+
 VARIANTS = [
     # ---- R1
     V("put of a freshly built Token without _persist_token", SFILE, f"{STEPM}.ScatterStep._scatter",
@@ -990,6 +1092,14 @@ VARIANTS = [
     V("empty provenance on the branch with inputs", SFILE, f"{STEPM}.DeployStep.run", "input_token_ids=get_entity_ids(inputs.values())", "input_token_ids=[]", "R5"),
     V("empty provenance although the (renamed) ports local is non-empty", SFILE, f"{STEPM}.Transformer.run",
       "input_token_ids=get_entity_ids(inputs.values())))\n        else:", "input_token_ids=[]))\n        else:", "R5"),
+    V("branches of the Transformer swapped without negating the test: [] recorded where ports were selected", SFILE, f"{STEPM}.Transformer.run",
+      _TR_IF + _TR_THEN + "        else:\n" + _TR_ELSE, _TR_IF + _TR_ELSE + "        else:\n" + _TR_THEN, "R5"),
+    V("test negated but branches kept: the deploy step records [] exactly when it has input ports", SFILE, f"{STEPM}.DeployStep.run",
+      "        if self.input_ports:\n            inputs_map:", "        if not self.input_ports:\n            inputs_map:", "R5"),
+    V("negation hidden in a local: `empty = not <ports>` and [] on the not-empty side", SFILE, f"{STEPM}.Transformer.run",
+      _TR_IF, "        empty = not (input_ports := self._filter_input_ports())\n        if empty:\n", "R5"),
+    V("[] where some ports exist (`len(<ports>) > 1` false does not mean none)", SFILE, f"{STEPM}.DeployStep.run",
+      "        if self.input_ports:\n            inputs_map:", "        if len(self.input_ports) > 1:\n            inputs_map:", "R5"),
     # ---- R6
     V("partial rename: transformer outputs linked to the last batch instead of the completed tag group", SFILE, f"{STEPM}.Transformer.run",
       _TR_GROUP, _TR_GROUP.replace("inputs", "tag_inputs").replace("tag_inputs_map", "inputs_map"), "R6", control=True),
@@ -1019,6 +1129,19 @@ VARIANTS = [
     V("cartesian entry takes the ids of another token of the schema", CFILE, "streamflow.workflow.combinator.CartesianProductCombinator._product",
       "'input_ids': [t.persistent_id]} for k, t in schema.items()", "'input_ids': [next(iter(schema.values())).persistent_id]} for k, t in schema.items()", "R8"),
     # ---- benign
+    V("if/else swapped under a negated test (deploy step): [] still only where there are no input ports", SFILE, f"{STEPM}.DeployStep.run",
+      "        if self.input_ports:\n" + _DEPLOY_THEN + "        else:\n" + _DEPLOY_ELSE,
+      "        if not self.input_ports:\n" + _DEPLOY_ELSE + "        else:\n" + _DEPLOY_THEN, None, control=True),
+    V("if/else swapped under a negated walrus test (transformer)", SFILE, f"{STEPM}.Transformer.run",
+      _TR_IF + _TR_THEN + "        else:\n" + _TR_ELSE, _TR_IFNOT + _TR_ELSE + "        else:\n" + _TR_THEN, None),
+    V("negation through a local with the test on its complement", SFILE, f"{STEPM}.Transformer.run",
+      _TR_IF, "        empty = not (input_ports := self._filter_input_ports())\n        if not empty:\n", None),
+    V("emptiness of the ports spelled with len()", SFILE, f"{STEPM}.DeployStep.run",
+      "        if self.input_ports:\n            inputs_map:", "        if len(self.input_ports) != 0:\n            inputs_map:", None),
+    V("no-ports case as an early return (guard clause) before the receive loop", SFILE, f"{STEPM}.DeployStep.run",
+      "        if self.input_ports:\n" + _DEPLOY_THEN + "        else:\n" + _DEPLOY_ELSE,
+      "        if not self.input_ports:\n" + _DEPLOY_ELSE + "            await self.terminate(self._get_status(status))\n            return\n"
+      + _DEPLOY_THEN.replace("\n    ", "\n")[4:], None),
     V("ports of the transformer selected into differently named locals (R5 finds the branch test by what it evaluates)", SFILE,
       f"{STEPM}.Transformer.run", "if (input_ports := self._filter_input_ports()):",
       "selected = self._filter_input_ports()\n        input_ports = selected\n        if selected:", None),
